@@ -752,7 +752,7 @@ func mgInjectConflict(rng *rand.Rand, p *reg.Pkg, g *treeGen, a, b ygot.Validate
 		inA[s.path] = s
 	}
 	var cands []mgSlot
-	want := pick(rng, []string{"leaf", "leaf", "leaf", "leafbin", "leaflist", "unkeyed", "omap", "omap-head"})
+	want := pick(rng, []string{"leaf", "leaf", "leaf", "leafbin", "leaflist", "unkeyed", "omap", "omap-head", "union-same-raw"})
 	if force != "" {
 		want = force
 	}
@@ -776,6 +776,10 @@ func mgInjectConflict(rng *rand.Rand, p *reg.Pkg, g *treeGen, a, b ygot.Validate
 			if s.kind == "leaf" && (mgLeafKind(s.sf.Type) == "bin" || mgLeafKind(s.sf.Type) == "enum" || mgLeafKind(s.sf.Type) == "union") {
 				cands = append(cands, s)
 			}
+		case "union-same-raw":
+			if s.kind == "leaf" && mgUnionEnumSibling(p, s).IsValid() {
+				cands = append(cands, s)
+			}
 		case "leaflist":
 			if s.kind == "leaflist" && s.field().Len() > 0 {
 				cands = append(cands, s)
@@ -795,6 +799,18 @@ func mgInjectConflict(rng *rand.Rand, p *reg.Pkg, g *treeGen, a, b ygot.Validate
 	}
 	s := pick(rng, cands)
 	fv := s.field()
+	if want == "union-same-raw" {
+		// two members of different types with the same Go kind and the same raw value: the int64
+		// member n in a, the enumeration member numbered n in b (a conflict: the values differ)
+		ev := mgUnionEnumSibling(p, s)
+		out := s.parent.MethodByName("To_" + s.sf.Type.Name()).Call([]reflect.Value{reflect.ValueOf(int64(1))})
+		if !out[1].IsNil() {
+			return ""
+		}
+		inA[s.path].field().Set(out[0])
+		fv.Set(ev)
+		return "union-same-raw " + s.path
+	}
 	switch s.kind {
 	case "leaf":
 		if mgRegenLeaf(g, s) {
@@ -859,6 +875,28 @@ func mgInjectConflict(rng *rand.Rand, p *reg.Pkg, g *treeGen, a, b ygot.Validate
 		return "omap-reversed " + s.path
 	}
 	return ""
+}
+
+// mgUnionEnumSibling: for a simple-union leaf with an int64 member, the value numbered 1 of an
+// enumerated type that is a member of the union too (found through the package's ΛEnumTypeMap).
+func mgUnionEnumSibling(p *reg.Pkg, s mgSlot) reflect.Value {
+	ut := s.sf.Type
+	if ut.Kind() != reflect.Interface {
+		return reflect.Value{}
+	}
+	to := s.parent.MethodByName("To_" + ut.Name())
+	if !to.IsValid() {
+		return reflect.Value{}
+	}
+	if out := to.Call([]reflect.Value{reflect.ValueOf(int64(1))}); !out[1].IsNil() || out[0].Elem().Kind() != reflect.Int64 {
+		return reflect.Value{}
+	}
+	for _, ft := range p.NewRoot().ΛEnumTypeMap()[schemaDataPath(s.entry)] {
+		if ft.Kind() == reflect.Int64 && ft.Implements(ut) {
+			return reflect.ValueOf(int64(1)).Convert(ft)
+		}
+	}
+	return reflect.Value{}
 }
 
 // mgGenPair derives two trees from one random base tree.
@@ -1220,6 +1258,11 @@ func mgMergeStream(rng *rand.Rand, n int, tier string, out string) (*Summary, er
 			// random options) possibly with MergeOverwriteExistingFields
 			for i := 0; i < 4; i++ {
 				mgMergeCase(p, rng.Int63(), "bin", &id, tf, sum, seen)
+			}
+			// directed: a union leaf holding members of different types with the same Go kind and the
+			// same raw value on the two sides (packages whose corpus has such a union)
+			for i := 0; i < 4; i++ {
+				mgMergeCase(p, rng.Int63(), "union-same-raw", &id, tf, sum, seen)
 			}
 			for i := 0; i < shares[name]; i++ {
 				mgMergeCase(p, rng.Int63(), "", &id, tf, sum, seen)
